@@ -489,6 +489,7 @@ func genBase(c *GenCtx) {
 		genSort(c)
 		genLiterals(c)
 		genRepr(c)
+		genAlias(c)
 	})
 	c.scaled(12, func(c *GenCtx) {
 		genArgs(c)
@@ -522,6 +523,7 @@ func generate(c *GenCtx) []Op {
 		genNumbers(c)
 		genOverflow(c)
 	case "C06":
+		genAlias(c)
 		genRandom(c, "rand", c.n(3000, 50000), 2)
 		genTyped(c, c.n(10000, 200000), 3)
 	case "C07":
